@@ -266,6 +266,34 @@ def c08_jobs(tier):
     return jobs
 
 
+def c04_jobs(tier):
+    jobs = []
+    T = dict(timeout_s=(270 if tier == "quick" else 3300))
+    for k in ([0, 1, 2] if tier == "quick" else [0, 1, 2, 3, 4]):
+        jobs.append(J("sml", "ZZ_C04_header", k=k, item=(1 if k <= 1 else 0), sf=(1 if k <= 1 else 0), **T))
+    if tier != "quick":
+        jobs.append(J("sml", "ZZ_C04_header", k=2, item=0, sf=1, **T))
+    for k in ([0, 1, 2] if tier == "quick" else [0, 1, 2, 3, 4]):
+        jobs.append(J("sml", "ZZ_C04_ascii", k=k, **T))
+    for typ in [1, 2] + INT_TYPES:
+        for n in ([0, 1, 2] if tier == "quick" else [0, 1, 2, 3]):
+            if tier == "quick" and typ in (6, 12) and n > 1:
+                continue  # two full-range 16-bit decimals per path are solver-heavy: thorough tier
+            if typ in (6, 12) and n > 2:
+                continue
+            jobs.append(J("sml", "ZZ_C04_leaf", typ=typ, n=n, wide=0, **T))
+    if tier != "quick":
+        for typ in (4, 7, 10, 13):
+            jobs.append(J("sml", "ZZ_C04_leaf", typ=typ, n=1, wide=1, query_ms=120000, **T))
+    for w in (4, 8):
+        jobs.append(J("sml", "ZZ_C04_float", w=w, **T))
+    for which in range(5):
+        jobs.append(J("sml", "ZZ_C04_vars", which=which, symc=(0 if tier == "quick" else 1), **T))
+    for t in range(7):
+        jobs.append(J("sml", "ZZ_C04_fixed", t=t, **T))
+    return jobs
+
+
 def c12_jobs(tier):
     jobs = []
     for w in (1, 2, 4, 8, 0, 3):
@@ -306,6 +334,11 @@ def smoke_jobs(tier):
 
 
 PROPS = {
+    "C04": dict(jobs=c04_jobs, must_reach=["end"],
+                level_text="Bounded model checking of print->parse: messages are built with constructors from symbolic header fields, names, characters and numbers, printed by the real String methods (fmt/strconv modelled, digits of symbolic numbers materialised by forking on their length) and parsed by the real lexer/parser in the same path; the result must be one message, no diagnostics, equal fields/variables/printed form/bytes. Conversely accepted menu texts are printed and re-parsed (fixed point).",
+                level_note="Trusted: go/ssa, engine string/number models, z3 (decimal digit arithmetic), strconv's float printing and parsing (menu only).",
+                bounds={"quick": "names k<=2 arbitrary bytes; ASCII items k<=2 characters (all 128); 1- and 2-byte numeric formats full range with n<=2 elements, 4/8-byte formats boundary menu; float menu 12x12; 5 variable/ellipsis templates with ASCII bounds 0..12", "thorough": "k<=4; n<=3; 4/8-byte formats full range with 1 element"},
+                outside=["shortest-digit float printing beyond the menu", "messages whose single ellipsis carries a non-canonical name", "names the lexer reads as another token (excluded by the property)"]),
     "C08": dict(jobs=c08_jobs, must_reach=["end"],
                 level_text="Bounded model checking, relational: the same token sequence is laid out twice (base and variant) and parsed twice in one symbolic path; the variant has arbitrary white-space bytes at a boundary, a // comment with arbitrary bytes, or symbolic letter case in a keyword; messages must be identical and every diagnostic must keep its text and move exactly with the token it points at.",
                 level_note="Trusted: go/ssa, engine, z3. Token sequences: 6 (valid, warning, two messages, range error, duplicate variable, invalid type).",
